@@ -123,8 +123,7 @@ Print Assumptions C03_whoareyou_needs_inflight.
    (RequestFailed for an application request) and does not put it back: the new state is that of
    fail_request, run under the clock of the step ([with_clock c now]); no session is created.
    (The model takes the same branch for a contact whose key type admits no session keys ([c_ed]:
-   Session::encrypt_with_header fails); the repaired proof files state the lemma for [rc_hs_sent]
-   only, which is the case the property is about.) *)
+   Session::encrypt_with_header fails): [C03_no_handshake_for_unsupported_key] below.) *)
 Theorem C03_single_handshake_per_request :
   forall c h from n idn seq cd now d h1 na r,
   let s0 := tick c h now d in
@@ -139,6 +138,21 @@ Theorem C03_single_handshake_per_request :
   SessD h (fst res).
 Proof. exact single_handshake_per_request. Qed.
 Print Assumptions C03_single_handshake_per_request.
+
+(* the same for a contact whose public key is not a secp256k1 key (an Ed25519 record): no session
+   keys can be derived for it, so a WHOAREYOU for a request to it is never answered with a handshake;
+   the request fails, nothing else is emitted, no session is created *)
+Theorem C03_no_handshake_for_unsupported_key :
+  forall c h from n idn seq cd now d h1 na r,
+  let s0 := tick c h now d in
+  nmap_get n (nmap (hs s0)) <> None ->
+  ar_remove_by_nonce (hs s0) n = (h1, Some (na, r)) -> snd na = from -> c_ed (rc_contact r) = true ->
+  let res := step c h (EvInbound from (PWho n idn seq cd)) now d in
+  (forall o, In o (snd res) -> In o (outs s0) \/ failed_out o) /\
+  (rc_ext r = true -> In (OEvent (HRequestFailed (rc_rid r) ERR_INVALID_REMOTE_PACKET)) (snd res)) /\
+  SessD h (fst res).
+Proof. exact no_handshake_for_unsupported_key. Qed.
+Print Assumptions C03_no_handshake_for_unsupported_key.
 
 (* ------------------------------------------------------------------------------------------ *)
 (* examples (Proofs/HandlerB_Examples.v): replay of an accepted handshake; WHOAREYOU with an unknown
